@@ -19,15 +19,15 @@ import (
 func init() { checkers["C05"] = checkC05 }
 
 type c05episode struct {
-	startN    int
-	startT    int64
-	posAt     map[int]uint64
-	needAt    map[int]bool
-	chains    map[string]string // key -> state: upsert1, set, upsert2, done, failed
-	faulted   bool
-	explicit  bool
-	endT      int64
-	endN      int
+	startN   int
+	startT   int64
+	posAt    map[int]uint64
+	needAt   map[int]bool
+	chains   map[string]string // key -> state: upsert1, set, upsert2, done, failed
+	faulted  bool
+	explicit bool
+	endT     int64
+	endN     int
 }
 
 type c05member struct {
@@ -52,7 +52,7 @@ type c05member struct {
 	explicit   map[string]*c05episode // call id -> snapshot
 	dead       bool
 	closing    bool
-	faultSince int // number of faults seen
+	faultSince int      // number of faults seen
 	windows    [][2]int // journal ranges during which a save of this member was in flight
 }
 
